@@ -12,7 +12,8 @@
 //!    of the body, trailers), with or without Content-Length, under every accepted content-type spelling, must give
 //!    the identical (status, parsed body) and the identical multiset of handler invocations.
 //!
-//! Bodies never have 128 or more leading whitespace bytes (outside the property's window).
+//! Bodies with 128 or more leading whitespace bytes (outside the sniffing window) are generated too: their one-frame answer
+//! is a rejection and every chunking must give the same rejection.
 
 use bytes::Bytes;
 use futures_util::StreamExt;
@@ -384,12 +385,15 @@ fn lead(r: &mut Rng, short: bool) -> Vec<u8> {
 			_ => r.usize(5) + 1,
 		}
 	} else {
-		match r.below(20) {
+		match r.below(22) {
 			0..=8 => 0,
 			9..=12 => r.usize(8) + 1,
 			13..=16 => r.usize(118) + 9,
 			17 => 126,
-			_ => 127,
+			18 | 19 => 127,
+			// beyond the sniffing window: the one-frame answer is a rejection, and every chunking must give the same
+			20 => 128 + r.usize(4),
+			_ => 129 + r.usize(300),
 		}
 	};
 	let mut w = ws_run(r, n);
@@ -626,8 +630,13 @@ fn gen_body(r: &mut Rng, tag: &str, short: bool) -> BodyCase {
 
 fn gen_body_bounded(r: &mut Rng, tag: &str, short: bool) -> BodyCase {
 	for _ in 0..200 {
-		let b = gen_body(r, tag, short);
-		if leading_ws(&b.bytes) <= 127 && (!short || b.bytes.len() <= 80) && b.bytes.len() <= 60_000 {
+		let mut b = gen_body(r, tag, short);
+		if (!short || b.bytes.len() <= 80) && b.bytes.len() <= 60_000 {
+			if leading_ws(&b.bytes) > 127 {
+				// outside the window nothing is "a valid call that must be processed"; only chunking independence is judged
+				b.expect_call = None;
+				b.kind = "over-window-leading-whitespace";
+			}
 			return b;
 		}
 	}
@@ -1045,6 +1054,19 @@ impl Exec {
 			for c in 1..=(lw + 1).min(len.saturating_sub(1)) {
 				let var = self.decorate(r, &ref_spec, split(body, &[c]));
 				self.compare(&info, &ref_spec, &reference, &var).await;
+			}
+			// the leading whitespace spread over several whitespace-only frames
+			if lw >= 2 && lw < len {
+				for _ in 0..6 {
+					let k = 2 + r.usize(3);
+					let mut cuts: Vec<usize> = (0..k).map(|_| 1 + r.usize(lw)).collect();
+					cuts.push(lw);
+					cuts.sort();
+					cuts.dedup();
+					cuts.retain(|c| *c > 0 && *c < len);
+					let var = self.decorate(r, &ref_spec, split(body, &cuts));
+					self.compare(&info, &ref_spec, &reference, &var).await;
+				}
 			}
 		}
 		// isolate every whitespace run of the body in a frame of its own
